@@ -1,5 +1,6 @@
 #!/bin/bash
 # seedcheck.sh <patch.diff> <Cxx> [<Cyy> ...] : apply a seeded change to /repo, run the checks, undo it
+export ADLT_VERIF_EVIDENCE_DIR=/tmp/adlt-verif-scratch-evidence
 P="$1"; shift
 cd /repo || exit 2
 if ! git diff --quiet; then echo "ERROR: /repo has uncommitted changes"; exit 2; fi
